@@ -1,7 +1,7 @@
 CONSTANTS
   MaxTokens = 2
   NItems = 3
-  WorldIds = {1, 2}
+  WorldIds = {2}
 INIT Init
 NEXT Next
 INVARIANTS InvExpansionReadsBack InvEscapedStayLiteral InvPlusCoversSelection InvOrdinals InvNeverHazard Emit
